@@ -26,7 +26,7 @@ BUDGET = {
     "quick": {"cases": 9600, "seconds": 90, "shards": 8},
     "thorough": {"cases": 160000, "seconds": 900, "shards": 16},
 }
-REQUIRED_OBS = ["knn_selection_checked", "unsup_selection_checked", "knn_all_accuracies_zero", "knn_best_not_first", "unsup_best_not_first",
+REQUIRED_OBS = ["exhaustive_small_graph_cases", "knn_selection_checked", "unsup_selection_checked", "knn_all_accuracies_zero", "knn_best_not_first", "unsup_best_not_first",
                 "unsup_early_stop_at_zero_cut", "accuracy_plateau"]
 MIN_NONTRIVIAL = 100
 
@@ -176,3 +176,34 @@ def check(case):
         res.nontrivial = len(ks) >= 3 and len(set(vals)) >= 2 and want != lo
     res.cell(kind, case["gclass"], "k" + str(min(case["max_k"], 8)))
     return res
+
+
+def extra(tier, seed, shard=0, nshards=1):
+    """Bounded-exhaustive pass: every symmetric weight matrix over {1,2[,3]} on 4..5 nodes (3..4 in the quick tier) x labellings,
+    as pre-computed matrices with a reversed index array, for both models and the k ranges 1..1, 1..2, 2..n-1, 1..n-1."""
+    out, agg, n_cases = [], Result(), 0
+    for n, D, Y in gen.exhaustive_small_graphs(tier, shard, nshards):
+        I = list(range(n))[::-1]
+        DD = np.zeros((n, n))
+        for a in range(n):
+            for b in range(n):
+                DD[I[a], I[b]] = D[a, b]
+        ranges = sorted({(1, 1), (1, min(2, n - 1)), (min(2, n - 1), n - 1), (1, n - 1)})
+        for model in ("unsup", "knn"):
+            for lo, hi in ranges:
+                case = {"model": model, "metric": "log_squared_euclidean", "gclass": "pre:EXH", "pattern": "exh",
+                        "X": [[float(i)] for i in I], "Y": list(Y), "V": [[float(i)] for i in range(n)], "YV": [int(Y[I.index(i)]) for i in range(n)],
+                        "Q": [[float(i)] for i in range(n)], "min_k": lo, "max_k": hi, "refit": False, "propagate": bool(n_cases % 2),
+                        "pre": {"D": DD.tolist(), "I": I, "IV": list(range(n)) if model == "knn" else None, "IQ": list(range(n)), "kind": "EXH"}}
+                if max(case["YV"]) < max(Y):
+                    continue
+                r = check(case)
+                n_cases += 1
+                if r.violations:
+                    out.append((case, r))
+                else:
+                    agg.obs.update(r.obs)
+    agg.see("exhaustive_small_graph_cases", n_cases)
+    agg.cell("exhaustive-small-graphs", tier)
+    out.append(({"exhaustive_small_graphs": {"tier": tier, "cases_this_shard": n_cases}}, agg))
+    return out
